@@ -120,6 +120,12 @@ impl Oracle {
     self.conns.iter().filter(|(_, (p, u))| *p == 2 && u.as_deref() == Some(user)).map(|(k, _)| *k).collect()
   }
 
+  /// the channel has members but the oracle could not learn who owns it (the hand-over events of a clean-up were lost
+  /// because the modulator refused them): owner-dependent judgements are then suspended for that channel
+  fn owner_unknown(&self, h: &str) -> bool {
+    self.members.get(h).is_some_and(|s| !s.is_empty()) && !self.owner.contains_key(h)
+  }
+
   fn drop_conn(&mut self, k: usize) {
     if let Some((2, Some(u))) = self.conns.remove(&k) {
       if self.conns_of(&u).is_empty() {
@@ -418,7 +424,8 @@ impl Oracle {
               if was_owner && remaining > 0 && env.ev_ok && !handed {
                 fails.push(format!("C04: owner {m} left {h} with {remaining} members remaining but no new owner was announced"));
               }
-              if !was_owner && handed {
+              // (after a clean-up whose events the modulator refused nobody was told who the successor is: unknown owner)
+              if self.owner.contains_key(&h) && !was_owner && handed {
                 fails.push(format!("C04: ownership of {h} changed hands although the owner did not leave"));
               }
             }
@@ -435,7 +442,7 @@ impl Oracle {
                   };
                   match m {
                     Some(m) => {
-                      if ob.is_some() && self.owner.get(&h) != Some(&u) {
+                      if ob.is_some() && self.owner.get(&h) != Some(&u) && !self.owner_unknown(&h) {
                         fails.push(format!("C04: on_behalf JOIN by non-owner {u} on {h} succeeded"));
                       }
                       if ob.is_some() && self.conns_of(&m).is_empty() {
@@ -463,7 +470,7 @@ impl Oracle {
                     Some(n) => user_of(n, &self.domain),
                     None => Some(u.clone()),
                   };
-                  if ob.is_some() && self.owner.get(&h) != Some(&u) {
+                  if ob.is_some() && self.owner.get(&h) != Some(&u) && !self.owner_unknown(&h) {
                     fails.push(format!("C04: on_behalf LEAVE by non-owner {u} on {h} succeeded"));
                   }
                   if let Some(m) = m {
@@ -496,7 +503,7 @@ impl Oracle {
               });
               if acked {
                 if let Some(h) = handler_of(chan, &self.domain) {
-                  if self.owner.get(&h) != Some(&u) {
+                  if self.owner.get(&h) != Some(&u) && !self.owner_unknown(&h) {
                     fails.push(format!("C04: {} by non-owner {u} on {h} succeeded", req.model().split(' ').next().unwrap()));
                   }
                 }
